@@ -219,7 +219,9 @@ func (env *specEnv) eval(x Expr) Val {
 		vn := fmt.Sprintf("%s!q%d", n.Var, e.nfresh)
 		c := env.child()
 		c.vars[n.Var] = Val{T: t, L: []string{quoteSym(vn)}}
+		nFacts := len(e.rangeFacts)
 		body := c.eval(n.Body)
+		e.rangeFacts = e.rangeFacts[:nFacts] // facts about terms containing the bound variable cannot be asserted globally
 		rng := e.sorter.rangeOf(quoteSym(vn), t)
 		if _, isPtr := t.Underlying().(*types.Pointer); isPtr {
 			rng = ""
@@ -477,6 +479,29 @@ func typeUnder(t types.Type) types.Type {
 
 func (env *specEnv) index(n *EIndex) Val {
 	e := env.e
+	// element of a package-level array: address it without materialising the whole array
+	if id, ok := n.X.(*EIdent); ok {
+		if _, local := env.vars[id.Name]; !local && env.pkgOf() != nil {
+			if v, ok := env.pkgOf().Scope().Lookup(id.Name).(*types.Var); ok {
+				if at, ok := v.Type().Underlying().(*types.Array); ok {
+					found := false
+					if env.lookup != nil {
+						_, found = env.lookup(id.Name)
+					}
+					if !found {
+						r := e.decl("glob:"+v.Pkg().Name()+"."+v.Name(), "Int")
+						i := env.asIdx(env.eval(n.I))
+						return env.withState(env.st, func() Val {
+							if isAggregateElem(at.Elem()) {
+								return e.loadObj(e.eaddr(r, i), at.Elem())
+							}
+							return e.loadLoc(&Loc{Kind: "elem", ObjT: typeName(at.Elem()), Ref: r, Idx: i, T: at.Elem()})
+						})
+					}
+				}
+			}
+		}
+	}
 	s := env.eval(n.X)
 	if s.T == nil {
 		sfail("indexing an untyped value")
@@ -833,7 +858,8 @@ func (e *FnEnc) defineSpec(sf *SpecFunc) *specSig {
 	body := func() Val {
 		save := e.st
 		e.st = symState
-		defer func() { e.st = save }()
+		nFacts := len(e.rangeFacts)
+		defer func() { e.st = save; e.rangeFacts = e.rangeFacts[:nFacts] }()
 		v := env.eval(sf.Body)
 		return env.typed(v, sig.ret)
 	}()
